@@ -225,7 +225,7 @@ func c12Case(t *rapid.T, sub string, baseline map[string]string, w *stack.World,
 		}
 	}
 	// calls made afterwards fail promptly, never succeed, never block
-	for i := 0; i < 3; i++ {
+	for i := 0; i < 8; i++ {
 		for _, kind := range []string{"Receive", "ServeAsk"} {
 			if kind == "ServeAsk" && victim.A == nil {
 				continue
@@ -284,14 +284,26 @@ func c12Case(t *rapid.T, sub string, baseline map[string]string, w *stack.World,
 	}
 }
 
-const c12Rule = "k in 0..4 goroutines blocked in Receive and in ServeAsk with non-expiring contexts, optional continuous tells/asks in flight from a peer, receive callbacks that take 0-5 ms (so that Close lands while a callback runs), optionally a transport beneath whose Close reports an error, Close at a generated point (immediately, after the 3rd delivery, a moment later, concurrently from two goroutines, twice). Oracle: Close returns within 3 s and does not panic; every blocked call returns a non-nil error within 3 s; no callback starts later than 20 ms after Close returned (traffic continues for 60 ms as the sentinel; the allowance covers hand-offs committed before Close); 3 further Receive/ServeAsk calls each return a non-nil error within 1 s; after closing all nodes no goroutine that carries a library frame and was started during the case is alive after a 3 s grace period (stack-dump diff). non-trivial = >= 1 call blocked at the moment of Close; distinct by (spec, blocked-call vector, timing)"
+const c12Rule = "k in 0..4 goroutines blocked in Receive and in ServeAsk with non-expiring contexts, optional continuous tells/asks in flight from a peer, receive callbacks that take 0-5 ms (so that Close lands while a callback runs), optionally a transport beneath whose Close reports an error, Close at a generated point (immediately, after the 3rd delivery, a moment later, concurrently from two goroutines, twice). Oracle: Close returns within 3 s and does not panic; every blocked call returns a non-nil error within 3 s; no callback starts later than 20 ms after Close returned (traffic continues for 60 ms as the sentinel; the allowance covers hand-offs committed before Close); 8 further Receive/ServeAsk calls each return a non-nil error within 1 s; after closing all nodes no goroutine that carries a library frame and was started during the case is alive after a 3 s grace period (stack-dump diff). non-trivial = >= 1 call blocked at the moment of Close; distinct by (spec, blocked-call vector, timing)"
 
 func TestC12Close(t *testing.T) {
 	const sub = "C12.close_generated_stacks"
 	ev.Rule(sub, "rapid: every stack spec (memory and UDP bases; fragmenting, message-box, multiplexer, multi-transport, address-mapped, whitelisted, P2PKE and QUIC layers to depth 3); "+c12Rule)
 	rapid.Check(t, func(t *rapid.T) {
 		spec := genSpec(t, specOpts{maxDepth: 3, bases: []string{"mem", "mem", "mem", "udp"}, honestFrag: true, errClose: true})
-		if rapid.IntRange(0, 4).Draw(t, "channelOnTop") == 0 {
+		special := rapid.IntRange(0, 6).Draw(t, "channelOnTop")
+		if special == 1 {
+			// the bare in-memory swarm (or a thin wrapper on it), closed while a slow callback is running and the peer keeps telling
+			spec = stack.Spec{Base: "mem", BaseMTU: 1500, QueueLen: rapid.SampledFrom([]int{2, 16, 256}).Draw(t, "bareQueue")}
+			if rapid.Bool().Draw(t, "thinWrapper") {
+				spec.Layers = []stack.Layer{{Kind: "wl"}}
+			}
+		}
+		if special == 2 {
+			// a multi-transport swarm over a transport whose Close reports an error: everything above must still be closed
+			spec = stack.Spec{Base: "mem", BaseMTU: 1500, QueueLen: 256, Layers: []stack.Layer{{Kind: "errclose"}, {Kind: "multi", Name: "t"}}}
+		}
+		if special == 0 {
 			// the swarm that is closed is one channel of a multiplexer: Close must not depend on the multiplexer's
 			// loop getting rid of a message that nobody is receiving
 			kind := rapid.SampledFrom(muxKinds).Draw(t, "muxKind")
@@ -303,7 +315,16 @@ func TestC12Close(t *testing.T) {
 			t.Fatalf("%s", ev.Tag(fmt.Sprintf("harness: %v: %v", spec, err)))
 		}
 		timing := rapid.SampledFrom([]string{"immediately", "after-deliveries", "later", "concurrent", "twice"}).Draw(t, "timing")
-		c12Case(t, sub, baseline, w, spec.String(), timing, rapid.IntRange(0, 4).Draw(t, "receivers"), rapid.IntRange(0, 4).Draw(t, "servers"), rapid.Bool().Draw(t, "traffic"), time.Duration(rapid.SampledFrom([]int{0, 0, 1, 5}).Draw(t, "callbackMs"))*time.Millisecond)
+		nRecv, nServe := rapid.IntRange(0, 4).Draw(t, "receivers"), rapid.IntRange(0, 4).Draw(t, "servers")
+		traffic := rapid.Bool().Draw(t, "traffic")
+		cbDelay := time.Duration(rapid.SampledFrom([]int{0, 0, 1, 5}).Draw(t, "callbackMs")) * time.Millisecond
+		if special == 1 {
+			nRecv, traffic, timing = max(nRecv, 1), true, "after-deliveries"
+			if cbDelay == 0 {
+				cbDelay = 2 * time.Millisecond
+			}
+		}
+		c12Case(t, sub, baseline, w, spec.String(), timing, nRecv, nServe, traffic, cbDelay)
 	})
 }
 
